@@ -9,3 +9,22 @@ import "github.com/alpacahq/marketstore/v4/executor/wal"
 func VerifSerializeTG(tgID int64, commands []*wal.WriteCommand) ([]byte, map[string][]wal.OffsetIndexBuffer) {
 	return serializeTG(tgID, commands)
 }
+
+// VerifSetHaveWALWriter sets the package flag that RequestFlush reads to decide whether a
+// background WAL writer goroutine exists (normally set by SyncWAL).
+func VerifSetHaveWALWriter(v bool) { haveWALWriter = v }
+
+// VerifFlushChannelLen returns the number of queued flush requests.
+func (wf *WALFileType) VerifFlushChannelLen() int { return len(wf.txnPipe.flushChannel) }
+
+// VerifWriteChannelLen returns the number of queued write commands.
+func (wf *WALFileType) VerifWriteChannelLen() int { return len(wf.txnPipe.writeChannel) }
+
+// VerifServeOneFlush does what the flushChannel arm of SyncWAL does, once: receive a queued
+// request, flush, answer it.
+func (wf *WALFileType) VerifServeOneFlush() error {
+	f := <-wf.txnPipe.flushChannel
+	err := wf.FlushToWAL()
+	f <- struct{}{}
+	return err
+}
